@@ -27,7 +27,7 @@ from gbasis.parsers import make_contractions, parse_gbs, parse_nwchem
 from gbasis.wrappers import from_iodata
 
 RULE = ("A Hypothesis RuleBasedStateMachine over a shared pool (2-3 shell objects, points, charge/coordinate arrays, density "
-        "matrix, transformation, coord_types list, basis dictionary, atoms/coordinates, basis-set files).  Rules with generated "
+        "matrix (in half of the histories symmetric only to round-off, 3e-10 in one element), transformation, coord_types list, basis dictionary, atoms/coordinates, basis-set files).  Rules with generated "
         "arguments: every public integral / evaluation / density / stress / ESP / import function as a VALID call on the pooled "
         "objects; the same functions as deliberately INVALID calls (wrong shape, wrong dtype incl. non-numeric arrays, wrong "
         "length, bad notation / deriv_type / coordinate type, negative threshold, mismatched or non-symmetric density matrix); "
@@ -98,6 +98,12 @@ class World:
         }
         self.transform = np.array(init["transform"], dtype=float)
         self.gamma_t = np.array(init["gamma_t"], dtype=float)
+        if init.get("gamma_roundoff"):
+            # density matrices symmetric only to round-off (3e-10 in one element: what a product C n C^T leaves behind); the
+            # library accepts them (numpy.allclose) and must not tidy them up in place
+            self.env["gamma"][0, -1] += 3e-10
+            self.gamma_t[0, -1] += 3e-10
+            self.flags_init = "gamma-symmetric-to-roundoff"
         self.coord_types = list(init["coord_types"])
         self.atoms = ["H", "H"]
         self.coords = np.array([[0.0, 0.0, 0.0], [0.0, 0.0, 1.4]])
@@ -119,7 +125,7 @@ class World:
         self.imported = [None, None]
         self.history = []
         self.snapshot = self.take()
-        self.flags = set()
+        self.flags = {self.flags_init} if getattr(self, "flags_init", None) else set()
         self.last_valid = None
         self.after_invalid = False
         self.after_renorm = False
@@ -447,7 +453,8 @@ def init_st(draw):
             "orders": [list(draw(st.tuples(*[st.integers(0, 2)] * 3))) for _ in range(2)],
             "deriv_order": list(draw(st.tuples(*[st.integers(0, 2)] * 3))), "alpha": draw(st.sampled_from([0, 0.5, 1, 0.3])),
             "beta": draw(st.sampled_from([0, 1, -0.5])), "gamma": G, "transform": T, "gamma_t": Gt,
-            "coord_types": [draw(st.sampled_from(["cartesian", "spherical", "c", "p"])) for _ in range(4)]}
+            "coord_types": [draw(st.sampled_from(["cartesian", "spherical", "c", "p"])) for _ in range(4)],
+            "gamma_roundoff": draw(st.booleans())}
 
 
 def judge(case):
@@ -559,4 +566,4 @@ def shards(tier):
 
 
 SUBCHECKS = [SubCheck("history", judge, shards, machine=machine)]
-EXPECTED_CLASSES = ["history/iodata-import", "history/call-after-different-call", "history/valid-after-invalid", "history/call-after-set_param+renormalise", "history/recall-after-inplace-change"]
+EXPECTED_CLASSES = ["history/iodata-import", "history/call-after-different-call", "history/valid-after-invalid", "history/call-after-set_param+renormalise", "history/recall-after-inplace-change", "history/gamma-symmetric-to-roundoff"]
